@@ -371,8 +371,17 @@ func (w *world) dispatchers() []string {
 		peekMin := 0
 		var hdrObj types.Object
 		for _, st := range fd.Body.List {
+			recognised := false
 			switch s := st.(type) {
+			case *ast.DeclStmt:
+				recognised = types.ExprString(s.Decl.(*ast.GenDecl).Specs[0].(*ast.ValueSpec).Names[0]) == "pdu" // var pdu sms.PDU
+			case *ast.ReturnStmt:
+				recognised = len(s.Results) == 2 && types.ExprString(s.Results[0]) == "pdu" && types.ExprString(s.Results[1]) == "nil"
 			case *ast.AssignStmt:
+				// err = pdu.IDecode(data)
+				if len(s.Lhs) == 1 && len(s.Rhs) == 1 && types.ExprString(s.Lhs[0]) == "err" && types.ExprString(s.Rhs[0]) == "pdu.IDecode(data)" {
+					recognised = true
+				}
 				// header, err := pkg.PeekHeader(data)
 				if len(s.Lhs) == 2 && len(s.Rhs) == 1 {
 					if c, ok := s.Rhs[0].(*ast.CallExpr); ok {
@@ -380,10 +389,12 @@ func (w *world) dispatchers() []string {
 							hdrObj = info.ObjectOf(s.Lhs[0].(*ast.Ident))
 							e.paths[hdrObj] = "Header"
 							peekMin = w.peekMin(pf)
+							recognised = true
 						}
 					}
 				}
 			case *ast.SwitchStmt:
+				recognised = s.Tag != nil && s.Init == nil
 				if s.Tag != nil {
 					if p, ok := w.fieldPath(e, s.Tag); ok {
 						cmdField = p
@@ -413,11 +424,26 @@ func (w *world) dispatchers() []string {
 				}
 			case *ast.IfStmt:
 				// if pdu == nil { return nil, sms.ErrUnsupportedPacket }
-				if types.ExprString(s.Cond) == "pdu == nil" && len(s.Body.List) == 1 {
+				if types.ExprString(s.Cond) == "pdu == nil" && len(s.Body.List) == 1 && s.Init == nil && s.Else == nil {
 					if r, ok := s.Body.List[0].(*ast.ReturnStmt); ok && len(r.Results) == 2 && strings.HasSuffix(types.ExprString(r.Results[1]), "ErrUnsupportedPacket") {
 						unknownIsErr = true
+						recognised = true
 					}
 				}
+				// if err != nil { return nil, err }   |   if err = pdu.IDecode(data); err != nil { return nil, err }
+				if types.ExprString(s.Cond) == "err != nil" && s.Else == nil && len(s.Body.List) == 1 {
+					if r, ok := s.Body.List[0].(*ast.ReturnStmt); ok && len(r.Results) == 2 && types.ExprString(r.Results[0]) == "nil" && types.ExprString(r.Results[1]) == "err" {
+						if s.Init == nil {
+							recognised = true
+						} else if a, ok := s.Init.(*ast.AssignStmt); ok && len(a.Rhs) == 1 && types.ExprString(a.Rhs[0]) == "pdu.IDecode(data)" {
+							recognised = true
+						}
+					}
+				}
+			}
+			if !recognised {
+				// a statement the translator does not understand: every checker rejects the dispatcher
+				cases = append(cases, fmt.Sprintf("(0, %s)", q("?unrecognised statement "+w.pos(st))))
 			}
 		}
 		res = append(res, fmt.Sprintf("{ name := %s, pkg := %s, cmdField := %s, cases := [%s], unknownIsError := %v, peekMin := %d }",
